@@ -35,6 +35,20 @@ FORBIDDEN = re.compile(
 # (not declared by this development) -- everything else must be "Closed".
 ALLOWED_ASSUMPTION = re.compile(
     r"^(PrimFloat\.|Uint63\.|PrimInt63\.|Coq\.Floats\.PrimFloat\.|Coq\.Numbers\.Cyclic\.Int63\.)")
+# Coq 8.16 prints the kernel's primitive float / int operations unqualified, as `name : type`
+PRIM_NAMES = {"float", "int", "add", "sub", "mul", "div", "opp", "abs", "sqrt", "eqb", "ltb", "leb", "compare", "classify", "of_uint63",
+              "normfr_mantissa", "frshiftexp", "ldshiftexp", "next_up", "next_down", "lsl", "lsr", "land", "lor", "lxor", "mod",
+              "addc", "subc", "addcarryc", "subcarryc", "mulc", "diveucl", "diveucl_21", "addmuldiv", "head0", "tail0", "float_class", "float_comparison"}
+PRIM_TYPE = re.compile(r"^[\s\(\)\*\->]*((float|int|bool|Set|float_class|float_comparison|comparison|carry|unit)[\s\(\)\*\->]*)+$")
+
+
+def allowed_assumption(entry):
+    """entry = 'name : type' as printed by Print Assumptions"""
+    name, _, typ = entry.partition(":")
+    name = name.strip(); typ = typ.strip()
+    if ALLOWED_ASSUMPTION.match(name):
+        return True
+    return name in PRIM_NAMES and bool(PRIM_TYPE.match(typ.replace("->", " -> ")))
 
 
 def sh(cmd, timeout=600, cwd=None, env=None, inp=None):
@@ -167,7 +181,7 @@ def check_props(pid, timeout=600):
     good = 0
     for name, blk in zip(printed, blocks):
         res["assumptions"][name] = blk
-        if all(ALLOWED_ASSUMPTION.match(a) for a in blk):
+        if all(allowed_assumption(a) for a in blk):
             if name in thms:
                 good += 1
     missing = [t for t in thms if t not in printed]
@@ -192,9 +206,9 @@ def _assumption_blocks(out):
                 blocks.append(cur)
             cur = []
         elif cur is not None:
-            m = re.match(r"^(\S+)\s*:", line)
+            m = re.match(r"^(\S+)\s*:\s*(.*)$", line)
             if m:
-                cur.append(m.group(1))
+                cur.append("%s : %s" % (m.group(1), m.group(2).strip()))
             elif line.startswith(" ") or line.strip() == "":
                 continue
             else:
